@@ -246,6 +246,30 @@ def chunk(arg):
     if which == "millis":
         lo, hi = arg[1], arg[2]
         return pack(which, *check_millis(lo, hi, arg[3]))
+    if which == "tz":
+        # the process-local time zone must not matter (a function may be configured with TZ)
+        import os
+        import time as _real_time
+        old = os.environ.get("TZ")
+        os.environ["TZ"] = arg[1]
+        _real_time.tzset()
+        try:
+            n1, v1, s1 = check_millis(1_700_000_000_000, 1_700_000_003_000, True)
+            n0, v0, s0 = check_millis(0, 2_000, False)
+            objs = [o for i, o in enumerate(operations()) if i % 211 == 0]
+            n2, v2, s2 = check_roundtrips(objs, [
+                ("dict", lambda x: x.to_dict(), L.Operation.from_dict),
+                ("json", lambda x: x.to_json_dict(), L.Operation.from_json_dict)], "Operation")
+        finally:
+            if old is None:
+                os.environ.pop("TZ", None)
+            else:
+                os.environ["TZ"] = old
+            _real_time.tzset()
+        viol = v0 + v1 + v2
+        for v in viol:
+            v["sig"] += f"/TZ={arg[1]}"
+        return pack(which, n0 + n1 + n2, viol, [f"TZ={arg[1]}"])
     raise ValueError(which)
 
 
@@ -375,6 +399,7 @@ def run(ctx):
         step = span // 4
         for s in range(lo, lo + span, step):
             jobs.append(("millis", s, s + step, True))
+    jobs += [("tz", z) for z in ("UTC0", "EST5EDT", "IST-5:30", "NZST-12NZDT")]
     res = ctx.pmap(MOD, "chunk", jobs)
     n = sum(r["n"] for r in res)
     by = {}
@@ -393,7 +418,8 @@ def run(ctx):
                      "6 types x 5 actions x parent/name/payload in {None,'',value} x errors x sub-types, every options "
                      "variant x all sub-types, option pairs; invocation input/output products; every create_* factory; "
                      "millisecond timestamps: dense windows around 0, 1.7e12, 2^31 s and powers of two up to 2^41 with "
-                     "sub-millisecond probes",
+                     "sub-millisecond probes; timestamp windows and a sample of operations again under process time zones "
+                     "UTC, EST5EDT, IST-5:30, NZST-12NZDT",
            "explanation": "states = objects/timestamps enumerated; each pushed through to_*/from_* and compared field-wise "
                           "(flattened to path->value, dropping None/''/empty sub-objects, timestamps at millisecond resolution)"}
     return {"coverage": cov, "violations": viols, "internal": [],
@@ -403,6 +429,10 @@ def run(ctx):
 def replay(rep):
     fam = rep["replay"]["family"]
     arg = {"operation": ("operation", 0, 1), "update": ("update", 0, 1)}.get(fam, (fam, 0, 300_000, True) if fam == "millis" else (fam,))
+    if fam == "tz":
+        tzname = rep["replay"]["sig"].rsplit("/TZ=", 1)[-1]
+        hits = [v for v in chunk(("tz", tzname))["viol"] if v["sig"] == rep["replay"]["sig"]]
+        return {"violations": [{"sig": v["sig"], "msg": v["msg"]} for v in hits]}
     if fam == "millis":
         out = []
         for a in (0, 1_700_000_000_000):
